@@ -53,9 +53,9 @@ def spec_arma2psd(dom, A, B, rho, T, NFFT):
         fr = V.s_div(k, nf)
         v = c
         if sb is not None:
-            v = v * abs2(dom.dtft(sb, NFFT, fr))
+            v = v * abs2(dom.dtft(sb, NFFT, k, NFFT))
         if sa is not None:
-            v = V.s_div(v, abs2(dom.dtft(sa, NFFT, fr)))
+            v = V.s_div(v, abs2(dom.dtft(sa, NFFT, k, NFFT)))
         return v
     return Arr(NFFT, fn=f, dtype="float")
 
@@ -95,3 +95,426 @@ def refined_stubs(dom):
     st["spectrum.periodogram.speriodogram"] = speriodogram
     st["spectrum.minvar.minvar"] = minvar
     return st
+
+
+# ---------------------------------------------------------------------------------
+# function-level contract tasks shared by several properties (each property that depends
+# on a function re-proves the function's contract in its own check)
+
+from pyvc.harness import Task  # noqa: E402
+
+
+def corr_stubs(dom):
+    """assumed contracts of CORRELATION / xcorr (proved in C09): lengths and identity only"""
+    K = dom.key_terms
+
+    def CORRELATION(I, x, y=None, maxlags=None, norm="unbiased"):
+        if maxlags is None:
+            maxlags = x.n - 1
+        keys = K([x, y if y is not None else x, maxlags, norm])
+        dt = "float" if (x.dtype != "complex" and (y is None or y.dtype != "complex")) else "complex"
+        return dom.opaque_array("RXY", keys, maxlags + 1, dt)
+
+    def xcorr(I, x, y=None, maxlags=None, norm="biased"):
+        # contract (C09): entry maxlags+k equals CORRELATION(x, y, maxlags, norm)[k] for k >= 0
+        if maxlags is None:
+            maxlags = x.n - 1
+        yy = y if y is not None else x
+        keys = K([x, yy, maxlags, norm])
+        dt = "float" if (x.dtype != "complex" and yy.dtype != "complex") else "complex"
+        pos = dom.opaque_array("RXY", keys, maxlags + 1, dt)
+        neg = dom.opaque_array("RXY_neg", keys, maxlags, dt)
+        sp, sn = pos.snap(), neg.snap()
+        r = Arr(2 * maxlags + 1, fn=lambda i: V.s_ite(V.s_cmp(">=", i, maxlags), sp(i - maxlags), sn(i)), dtype=dt)
+        lags = Arr(2 * maxlags + 1, fn=lambda i: i - maxlags, dtype="int")
+        return (r, lags)
+    return {"spectrum.correlation.CORRELATION": CORRELATION, "spectrum.correlation.xcorr": xcorr}
+
+
+def rxy_array(dom, x, y, lag, norm, dt):
+    keys = dom.key_terms([x, y if y is not None else x, lag, norm])
+    return dom.opaque_array("RXY", keys, lag + 1, dt)
+
+
+def spec_correlogram(dom, x, y, lag, n, dt, norm="biased", window="hamming"):
+    """Re sum_{|m|<=lag} r[m] w[m] e^{-2 pi i (k/NFFT) m}: two-sided, grid independent"""
+    cross = y is not None
+    rxy = rxy_array(dom, x, y if cross else x, lag, norm, dt).snap()
+    ryx = rxy_array(dom, y, x, lag, norm, dt).snap() if cross else rxy
+    w = window_array(dom, 2 * lag + 1, window).snap()
+    zero = Cx(Fraction(0), Fraction(0))
+
+    def t(m):
+        pos = V.Cx.of(rxy(m) * w(lag + m))
+        neg = V.Cx.of(V.s_conj(ryx(-m)) * w(lag - m))
+        return V.s_ite(V.s_eq(m, 0), V.Cx.of(rxy(0)),
+                       V.s_ite(V.b_and(V.s_cmp(">=", m, 1), V.s_cmp("<=", m, lag)), pos,
+                               V.s_ite(V.b_and(V.s_cmp("<=", m, -1), V.s_cmp(">=", m, -lag)), neg, zero)))
+    return Arr(n, fn=lambda k: V.Cx.of(dom.dtftz(t, k, n)).re, dtype="float")
+
+
+def spec_minvar(I, dom, x, m, fs, n):
+    a, rho, kref = burg_stub(dom)["spectrum.burg.arburg"](I, x, m - 1)
+    A = poly_seq(a)
+
+    def psi(K):
+        tot = dom.sum(0, m - K, lambda i: V.to_float(m - K - 2 * i) * V.s_conj(A(i)) * A(i + K))
+        return V.Cx.of(tot) / rho
+    zero = Cx(Fraction(0), Fraction(0))
+
+    def twosided(j):
+        # psi[K] for 0 <= K < m, conj(psi[-K]) for -m < K < 0: the Hermitian lag sequence of e^H R^-1 e
+        return V.s_ite(V.b_and(V.s_cmp(">=", j, 0), V.s_cmp("<", j, m)), psi(j),
+                       V.s_ite(V.b_and(V.s_cmp("<", j, 0), V.s_cmp(">", j, -m)), V.s_conj(psi(-j)), zero))
+    want = Arr(n, fn=lambda k: V.s_div(fs, V.Cx.of(dom.dtftz(twosided, k, n)).re), dtype="float")
+    return want, A, kref
+
+
+def speriodogram_task(prop_hint, datatype, nfft_mode="int", scale=False):
+    """speriodogram (1-D) against |DFT_NFFT(x*w)|^2 / N"""
+    def run(tc):
+        dom = tc.smt()
+        I = tc.interp(stubs=window_stub(dom))
+        hints = {"datatype": datatype, "nfft_mode": nfft_mode, "scale": scale}
+
+        def thunk(I):
+            N = dom.input_int("N")
+            I.assume(V.s_cmp(">=", N, 1))
+            x = dom.input_array("x", N, "complex" if datatype == "complex" else "float")
+            fs = dom.input_real("sampling")
+            I.assume(V.s_cmp(">", fs, 0))
+            if nfft_mode == "int":
+                n = dom.input_int("NFFT")
+                I.assume(V.s_cmp(">=", n, N))
+            else:
+                n = None
+            r = I.call_qual("spectrum.periodogram.speriodogram", x, n, False, fs, scale, "hann")
+            I.st = dict(x=x, N=N, n=n if n is not None else N, fs=fs)
+            return r
+
+        def post(P):
+            st = P.interp.st
+            if P.outcome != "return":
+                P.fail("no-exception", "speriodogram raises %s" % P.value.exc, replay=("speriodogram", hints))
+                return
+            x, N, n = st["x"], st["N"], st["n"]
+            w = window_array(dom, N, "hann")
+            sx, sw = x.snap(), w.snap()
+            zero = Cx(Fraction(0), Fraction(0)) if datatype == "complex" else Fraction(0)
+            seq = lambda j: V.s_ite(V.b_and(V.s_cmp(">=", j, 0), V.s_cmp("<", j, N)), sx(j) * sw(j), zero)
+            nf = V.to_float(n)
+            fac = V.s_div(2 * dom.pi(), V.s_div(st["fs"], nf)) if scale else 1
+            ln = (V.s_floordiv(n, 2) + 1) if datatype == "real" else n
+            want = Arr(ln, fn=lambda k: V.s_div(abs2(dom.dtft(seq, n, k, n)), V.to_float(N)) * fac, dtype="float")
+            got = P.value
+            if not isinstance(got, Arr) or got.dtype == "complex":
+                P.fail("real-1d", "result is not a real 1-D array", replay=("speriodogram", hints))
+                return
+            P.prove_arr_eq("windowed-DFT/N", got, want, replay=("speriodogram", hints))
+        tc.run_paths(I, thunk, post)
+    return Task("speriodogram.%s.NFFT-%s%s" % (datatype, nfft_mode, ".scaled" if scale else ""), run,
+                functions=["spectrum.periodogram.speriodogram"])
+
+
+def speriodogram2d_task(datatype, ncols):
+    """2-D input: column c of the result is the periodogram of column c"""
+    def run(tc):
+        dom = tc.smt()
+        I = tc.interp(stubs=window_stub(dom))
+        hints = {"datatype": datatype, "ncols": ncols}
+
+        def thunk(I):
+            N = dom.input_int("N")
+            I.assume(V.s_cmp(">=", N, 1))
+            x = dom.input_array2("x", N, ncols, "complex" if datatype == "complex" else "float")
+            n = dom.input_int("NFFT")
+            I.assume(V.s_cmp(">=", n, N))
+            r = I.call_qual("spectrum.periodogram.speriodogram", x, n, False, Fraction(1), False, "hann")
+            I.st = dict(x=x, N=N, n=n)
+            return r
+
+        def post(P):
+            st = P.interp.st
+            if P.outcome != "return":
+                P.fail("no-exception", "speriodogram raises %s" % P.value.exc, replay=("speriodogram2d", hints))
+                return
+            x, N, n = st["x"], st["N"], st["n"]
+            got = P.value
+            if not isinstance(got, Arr2):
+                P.fail("2d-result", "result is not 2-D", replay=("speriodogram2d", hints))
+                return
+            w = window_array(dom, N, "hann")
+            sx, sw = x.snap(), w.snap()
+            nf = V.to_float(n)
+            zero = Cx(Fraction(0), Fraction(0)) if datatype == "complex" else Fraction(0)
+            ln = (V.s_floordiv(n, 2) + 1) if datatype == "real" else n
+            P.prove("2d.shape", V.b_and(V.s_eq(got.r, ln), V.s_eq(got.c, ncols)), replay=("speriodogram2d", hints))
+            k = P.skolem("k", 0, ln)
+            for c in range(ncols):
+                seq = lambda j, c=c: V.s_ite(V.b_and(V.s_cmp(">=", j, 0), V.s_cmp("<", j, N)), sx(j, c) * sw(j), zero)
+                want = V.s_div(abs2(dom.dtft(seq, n, k, n)), V.to_float(N))
+                P.prove("2d.column%d=periodogram-of-column" % c, V.s_eq(got.at(k, c), want), replay=("speriodogram2d", hints))
+        tc.run_paths(I, thunk, post)
+    return Task("speriodogram2d.%s.c%d" % (datatype, ncols), run, functions=["spectrum.periodogram.speriodogram"])
+
+
+def correlogram_task(datatype, method, cross=False):
+    """CORRELOGRAMPSD: Re DTFT of the Hermitian (wrapped) windowed lag sequence, on the grid k/NFFT"""
+    def run(tc):
+        dom = tc.smt()
+        st_ = dict(window_stub(dom))
+        st_.update(corr_stubs(dom))
+        I = tc.interp(stubs=st_)
+        hints = {"datatype": datatype, "method": method, "cross": cross}
+
+        def thunk(I):
+            N = dom.input_int("N")
+            lag = dom.input_int("lag")
+            n = dom.input_int("NFFT")
+            I.assume(V.s_cmp(">=", lag, 1))
+            I.assume(V.s_cmp("<", lag, N))
+            I.assume(V.s_cmp(">=", n, 2 * lag + 1))
+            dt = "complex" if datatype == "complex" else "float"
+            x = dom.input_array("x", N, dt)
+            y = dom.input_array("y", N, dt) if cross else None
+            r = I.call_qual("spectrum.correlog.CORRELOGRAMPSD", x, y, lag, "hamming", "biased", n, {}, method)
+            I.st = dict(x=x, y=y, N=N, n=n, lag=lag, dt=dt)
+            return r
+
+        def post(P):
+            st = P.interp.st
+            if P.outcome != "return":
+                P.fail("no-exception", "CORRELOGRAMPSD raises %s" % P.value.exc, replay=("correlogram", hints))
+                return
+            x, y, n, lag, dt = st["x"], st["y"], st["n"], st["lag"], st["dt"]
+            want = spec_correlogram(dom, x, y if cross else None, lag, n, dt)
+            got = P.value
+            if not isinstance(got, Arr) or got.dtype == "complex":
+                P.fail("real-1d", "result is not a real 1-D array", replay=("correlogram", hints))
+                return
+            P.prove_arr_eq("Re-DFT-of-hermitian-lag-sequence", got, want, replay=("correlogram", hints))
+        tc.run_paths(I, thunk, post)
+    return Task("CORRELOGRAMPSD.%s.%s%s" % (datatype, method, ".cross" if cross else ""), run,
+                functions=["spectrum.correlog.CORRELOGRAMPSD"])
+
+
+def burg_stub(dom):
+    st = model.estimator_stubs(dom)
+    return {"spectrum.burg.arburg": st["spectrum.burg.arburg"]}
+
+
+def minvar_task(datatype):
+    """minvar: PSD[k] = sampling / Re DTFT(psi~, k/NFFT), psi[K] = sum_I (m-K-2I) conj(A[I]) A[I+K] / P,
+    psi~ Hermitian-wrapped; returns A = [1, a_burg] and the Burg reflection coefficients"""
+    def run(tc):
+        dom = tc.smt()
+        I = tc.interp(stubs=burg_stub(dom))
+        hints = {"datatype": datatype}
+
+        def thunk(I):
+            N = dom.input_int("N")
+            m = dom.input_int("order")
+            n = dom.input_int("NFFT")
+            fs = dom.input_real("sampling")
+            I.assume(V.s_cmp(">", fs, 0))
+            I.assume(V.s_cmp(">=", m, 2))
+            I.assume(V.s_cmp(">=", n, 2 * m))
+            I.assume(V.s_cmp(">", N, m))
+            x = dom.input_array("x", N, "complex" if datatype == "complex" else "float")
+            r = I.call_qual("spectrum.minvar.minvar", x, m, fs, n)
+            I.st = dict(x=x, m=m, n=n, fs=fs)
+            return r
+
+        def post(P):
+            st = P.interp.st
+            if P.outcome != "return":
+                P.fail("no-exception", "minvar raises %s" % P.value.exc, replay=("minvar", hints))
+                return
+            x, m, n, fs = st["x"], st["m"], st["n"], st["fs"]
+            psd, A_ret, k_ret = P.value
+            want, A, kref = spec_minvar(P.interp, dom, x, m, fs, n)
+            if not isinstance(psd, Arr) or psd.dtype == "complex":
+                P.fail("real-1d", "PSD is not a real 1-D array", replay=("minvar", hints))
+                return
+            P.prove_arr_eq("T/Re-DFT(psi)", psd, want, replay=("minvar", hints))
+            wantA = Arr(m, fn=lambda i: V.Cx.of(A(i)), dtype="complex")
+            P.prove_arr_eq("returns-[1,a_burg]", A_ret, wantA, replay=("minvar", hints))
+            P.prove_arr_eq("returns-burg-reflection", k_ret, kref, replay=("minvar", hints))
+        tc.run_paths(I, thunk, post)
+    return Task("minvar.%s" % datatype, run, functions=["spectrum.minvar.minvar"])
+
+
+def eigen_task(datatype, method, P_, NSIG, nfft_parity=None):
+    """eigen(): returned[a] = 1 / sum_{I>=NSIG} |DTFT(z_I, -(a-h)/NFFT)|^2 (/S_I for 'ev') on the CENTRED axis
+    (a-h)*df, with z_I = -Vh[I, 0:P] the sequence the code transforms; length NFFT; singular values
+    returned unchanged.  (bounded in the order P, unbounded in N, NFFT, data)"""
+    def run(tc):
+        dom = tc.smt()
+        I = tc.interp()
+        hints = {"datatype": datatype, "method": method, "P": P_, "NSIG": NSIG}
+
+        def thunk(I):
+            N = dom.input_int("N")
+            n = dom.input_int("NFFT")
+            I.assume(V.s_cmp(">=", N, 2 * P_))
+            I.assume(V.s_cmp("<=", N - P_, 100))       # the NP cap is C17's business
+            I.assume(V.s_cmp(">=", n, P_ + 1))
+            x = dom.input_array("x", N, "complex" if datatype == "complex" else "float")
+            r = I.call_qual("spectrum.eigenfre.eigen", x, P_, NSIG, method, None, n)
+            I.st = dict(x=x, N=N, n=n)
+            return r
+
+        def post(P):
+            st = P.interp.st
+            if P.outcome != "return":
+                P.fail("no-exception", "eigen raises %s" % P.value.exc, replay=("eigen", hints))
+                return
+            psd, S = P.value
+            n, N, x = st["n"], st["N"], st["x"]
+            h = specs.half(n)
+            P.prove("len=NFFT", V.s_eq(psd.n, n), replay=("eigen", hints))
+            # the svd results the code used: look them up through the same library contract
+            NP = N - P_
+            sx = x.snap()
+            FB = Arr2(2 * NP, P_, fn=lambda i, k: V.s_ite(V.s_cmp("<", i, NP), V.Cx.of(sx(i - k + P_ - 1)),
+                                                            V.s_conj(V.Cx.of(sx(i - NP + k + 1)))), dtype="complex")
+            U, S2, Vh = P.interp.lib.get("numpy.linalg.svd")(P.interp, FB)
+            P.prove_arr_eq("singular-values-returned", S, S2, replay=("eigen", hints))
+            a = P.skolem("a", 0, n)
+            nf = V.to_float(n)
+            g = specs.wrap(h - a, n)      # bin index: g/NFFT == -(a-h)/NFFT  (mod 1)
+            tot = Fraction(0)
+            zero = Cx(Fraction(0), Fraction(0))
+            vs = Vh.snap()
+            for I_ in range(NSIG, P_):
+                z = lambda j, I_=I_: V.s_ite(V.b_and(V.s_cmp(">=", j, 0), V.s_cmp("<", j, P_)), -vs(I_, j), zero)
+                t = abs2(dom.dtft(z, n, g, n))
+                if method == "ev":
+                    t = V.s_div(t, S2.at(I_))
+                tot = tot + t
+            want = V.s_div(1, tot)
+            P.prove("pseudo-spectrum-on-centred-axis", V.s_eq(psd.at(a), want), replay=("eigen", hints))
+            P.canary("shifted-by-one-bin", V.s_eq(psd.at(a), V.s_div(1, _eig_tot(dom, vs, S2, n, specs.wrap(h - a + 1, n), P_, NSIG, method))))
+        tc.run_paths(I, thunk, post)
+    return Task("eigen.%s.%s.P%d.NSIG%d" % (datatype, method, P_, NSIG), run, kind="unbounded",
+                functions=["spectrum.eigenfre.eigen"])
+
+
+def _eig_tot(dom, vs, S2, n, g, P_, NSIG, method):
+    tot = Fraction(0)
+    zero = Cx(Fraction(0), Fraction(0))
+    for I_ in range(NSIG, P_):
+        z = lambda j, I_=I_: V.s_ite(V.b_and(V.s_cmp(">=", j, 0), V.s_cmp("<", j, P_)), -vs(I_, j), zero)
+        t = abs2(dom.dtft(z, n, g, n))
+        if method == "ev":
+            t = V.s_div(t, S2.at(I_))
+        tot = tot + t
+    return tot
+
+
+def grid_task(fname, datatype, extra=None):
+    """NFFT only chooses the sampling grid: F(NFFT2 = c*NFFT1)[c*i] = F(NFFT1)[i] for every c >= 2, i"""
+    def run(tc):
+        dom = tc.smt()
+        stubs = dict(window_stub(dom))
+        stubs.update(corr_stubs(dom))
+        stubs.update(burg_stub(dom))
+        I = tc.interp(stubs=stubs)
+        hints = {"fn": fname, "datatype": datatype}
+        hints.update(extra or {})
+
+        def thunk(I):
+            N = dom.input_int("N")
+            n1 = dom.input_int("NFFT")
+            c = dom.input_int("c")
+            I.assume(V.s_cmp(">=", c, 2))
+            I.assume(V.s_cmp(">=", N, 2))
+            I.assume(V.s_cmp(">=", n1, 1))
+            n2 = dom.input_int("NFFT2")
+            I.assume(V.s_eq(n2, c * n1))
+            # linear consequence of n2 = c*n1, c >= 2, n1 >= 1, handed to the (linear) queries; it is
+            # itself discharged as the obligation `finer-grid-lemma`
+            I.assume(V.s_cmp(">=", n2, 2 * n1))
+            dt = "complex" if datatype == "complex" else "float"
+            x = dom.input_array("x", N, dt)
+            st = dict(n1=n1, n2=n2, c=c, N=N)
+            if fname == "arma2psd":
+                p = dom.input_int("p")
+                q = dom.input_int("q")
+                I.assume(V.s_cmp(">=", p, 1))
+                I.assume(V.s_cmp(">=", q, 1))
+                I.assume(V.s_cmp(">", n1, p))
+                I.assume(V.s_cmp(">", n1, q))
+                A = dom.input_array("A", p, dt)
+                B = dom.input_array("B", q, dt)
+                rho, T = dom.input_real("rho"), dom.input_real("T")
+                I.assume(V.s_cmp(">", T, 0))
+                st["r1"] = I.call_qual("spectrum.arma.arma2psd", A, B, rho, T, n1)
+                st["r2"] = I.call_qual("spectrum.arma.arma2psd", A, B, rho, T, n2)
+            elif fname == "speriodogram":
+                I.assume(V.s_cmp(">=", n1, N))
+                st["r1"] = I.call_qual("spectrum.periodogram.speriodogram", x, n1, False, Fraction(1), False, "hann")
+                st["r2"] = I.call_qual("spectrum.periodogram.speriodogram", x, n2, False, Fraction(1), False, "hann")
+            elif fname == "CORRELOGRAMPSD":
+                lag = dom.input_int("lag")
+                I.assume(V.s_cmp(">=", lag, 1))
+                I.assume(V.s_cmp("<", lag, N))
+                I.assume(V.s_cmp(">=", n1, 2 * lag + 1))
+                st["r1"] = I.call_qual("spectrum.correlog.CORRELOGRAMPSD", x, None, lag, "hamming", "unbiased", n1)
+                st["r2"] = I.call_qual("spectrum.correlog.CORRELOGRAMPSD", x, None, lag, "hamming", "unbiased", n2)
+                st["spec"] = lambda n: spec_correlogram(dom, x, None, lag, n, dt, norm="unbiased")
+            elif fname == "minvar":
+                m = dom.input_int("order")
+                I.assume(V.s_cmp(">=", m, 2))
+                I.assume(V.s_cmp(">=", n1, 2 * m))
+                I.assume(V.s_cmp(">", N, m))
+                st["r1"] = I.call_qual("spectrum.minvar.minvar", x, m, Fraction(1), n1)[0]
+                st["r2"] = I.call_qual("spectrum.minvar.minvar", x, m, Fraction(1), n2)[0]
+                st["spec"] = lambda n: spec_minvar(I, dom, x, m, Fraction(1), n)[0]
+            elif fname == "eigen":
+                P_, NSIG, method = extra["P"], extra["NSIG"], extra["method"]
+                I.assume(V.s_cmp(">=", N, 2 * P_))
+                I.assume(V.s_cmp("<=", N - P_, 100))
+                I.assume(V.s_cmp(">=", n1, P_ + 1))
+                e1 = I.call_qual("spectrum.eigenfre.eigen", x, P_, NSIG, method, None, n1)
+                e2 = I.call_qual("spectrum.eigenfre.eigen", x, P_, NSIG, method, None, n2)
+                st["r1"], st["r2"] = e1[0], e2[0]
+                st["S1"], st["S2"] = e1[1], e2[1]
+            I.st = st
+            return None
+
+        def post(P):
+            st = P.interp.st
+            if P.outcome != "return":
+                P.fail("no-exception", "%s raises %s" % (fname, P.value.exc), replay=("grid", hints))
+                return
+            r1, r2, c, n1, n2 = st["r1"], st["r2"], st["c"], st["n1"], st["n2"]
+            import z3
+            from pyvc.oblig import discharge
+            cc, nn = z3.Int("lem!c"), z3.Int("lem!n")
+            res = discharge(dom, "%s/%s/finer-grid-lemma#%s" % (tc.prop, tc.task.name, P.label),
+                            [cc >= 2, nn >= 1], cc * nn >= 2 * nn)
+            res.clause = "finer-grid-lemma"
+            res.replay = None
+            tc.results.append(res)
+            i = P.skolem("gi", 0, r1.n)
+            if fname == "eigen":
+                h1, h2 = specs.half(n1), specs.half(n2)
+                j = h2 + c * (i - h1)              # same frequency (a-h)/NFFT on the finer centred grid
+                P.prove_arr_eq("singular-values-independent-of-NFFT", st["S2"], st["S1"], replay=("grid", hints))
+            else:
+                j = c * i
+            if "spec" in st:
+                # wrapped (Hermitian) sequences: go through the grid-independent two-sided spectrum
+                w1, w2 = st["spec"](n1), st["spec"](n2)
+                P.prove("coarse-grid=two-sided-spectrum", V.s_eq(r1.at(i), w1.at(i)), replay=("grid", hints))
+                P.prove("fine-grid=two-sided-spectrum", V.s_eq(r2.at(j), w2.at(j)), replay=("grid", hints))
+                P.prove("two-sided-spectrum-at-equal-frequencies", V.s_eq(w2.at(j), w1.at(i)), replay=("grid", hints))
+            else:
+                P.prove("common-frequencies-agree", V.s_eq(r2.at(j), r1.at(i)), replay=("grid", hints))
+            P.prove("index-in-range", V.b_and(V.s_cmp(">=", j, 0), V.s_cmp("<", j, r2.n)), replay=("grid", hints))
+        tc.run_paths(I, thunk, post)
+    tag = ("." + ".".join("%s%s" % (k, v) for k, v in sorted((extra or {}).items()))) if extra else ""
+    return Task("grid.%s.%s%s" % (fname, datatype, tag), run, functions=["spectrum." + {
+        "arma2psd": "arma.arma2psd", "speriodogram": "periodogram.speriodogram", "CORRELOGRAMPSD": "correlog.CORRELOGRAMPSD",
+        "minvar": "minvar.minvar", "eigen": "eigenfre.eigen"}[fname]])
